@@ -12,7 +12,11 @@ Gallina definitions; coq/C03/SourceTie.v proves that they are what the hand-writ
   * the 'empty' marker (read and written) and the '%s[%d]' index format,
   * whether get_simple_type_info_with_prot stops on a class seen anywhere (pinned) or only on
     a class seen in the current branch (repaired),
-  * the separators of _parse_qs.
+  * the separators of _parse_qs,
+  * that the index map of the non-strict branch is looked up under id(list being built) (and whether that list is
+    kept referenced), one _s2cmi call, one insert,
+  * _header_to_bytes: a DateTime header goes to UTC first (aware: astimezone, naive: read as UTC) and is written
+    with the IMF-fixdate format and the _weekday/_month tables.
 
 Fail closed: any shape that is not recognised raises TranslateError.
 """
@@ -197,6 +201,98 @@ def tr_strict(fn):
     return rej[0], app[0]
 
 
+def tr_idxmap(fn):
+    """the index map of the non-strict branch belongs to the LIST being built: _m is looked up under id(ninst)
+    (and, repaired tree, the list is stored next to its map); one _s2cmi(_m, nidx) call, one
+    ninst.insert(cidx, newval), the element is read back as ninst[cidx]"""
+    asg = [n for n in ast.walk(fn) if isinstance(n, ast.Assign) and len(n.targets) == 1
+           and isinstance(n.targets[0], ast.Name) and n.targets[0].id == '_m']
+    need(len(asg) == 1, 'simple_dict_to_object: exactly one assignment to _m expected, got %d' % len(asg))
+    v = asg[0].value
+
+    def id_of_ninst(n):
+        return is_call(n, 'id') and len(n.args) == 1 and isinstance(n.args[0], ast.Name) and n.args[0].id == 'ninst'
+    keeps = None
+    if isinstance(v, ast.Subscript) and isinstance(v.value, ast.Name) and v.value.id == 'idxmap':
+        need(id_of_ninst(v.slice), 'index map key is not id(ninst): %s' % ast.dump(v.slice))
+        keeps = False
+    elif isinstance(v, ast.Subscript) and isinstance(v.slice, ast.Constant) and v.slice.value == 1 \
+            and isinstance(v.value, ast.Call) and isinstance(v.value.func, ast.Attribute) and v.value.func.attr == 'setdefault' \
+            and isinstance(v.value.func.value, ast.Name) and v.value.func.value.id == 'idxmap' and len(v.value.args) == 2:
+        k, d = v.value.args
+        need(id_of_ninst(k), 'index map key is not id(ninst): %s' % ast.dump(k))
+        need(isinstance(d, ast.Tuple) and len(d.elts) == 2 and isinstance(d.elts[0], ast.Name) and d.elts[0].id == 'ninst'
+             and isinstance(d.elts[1], ast.Dict) and not d.elts[1].keys, 'index map default is not (ninst, {})')
+        keeps = True
+    else:
+        raise TranslateError('index map lookup not recognised: %s' % ast.dump(v))
+    calls = [n for n in ast.walk(fn) if is_call(n, '_s2cmi')]
+    need(len(calls) == 1 and [getattr(a, 'id', None) for a in calls[0].args] == ['_m', 'nidx'], '_s2cmi(_m, nidx) once')
+    ins = [n for n in ast.walk(fn) if isinstance(n, ast.Call) and isinstance(n.func, ast.Attribute) and n.func.attr == 'insert']
+    need(len(ins) == 1 and getattr(ins[0].func.value, 'id', None) == 'ninst'
+         and [getattr(a, 'id', None) for a in ins[0].args] == ['cidx', 'newval'], 'ninst.insert(cidx, newval) once')
+    reads = [n for n in ast.walk(fn) if isinstance(n, ast.Assign) and isinstance(n.value, ast.Subscript)
+             and getattr(n.value.value, 'id', None) == 'ninst' and getattr(n.targets[0], 'id', None) == 'cinst']
+    need(sorted(getattr(n.value.slice, 'id', None) for n in reads) == ['cidx', 'nidx'], 'cinst = ninst[cidx] / ninst[nidx]')
+    return keeps
+
+
+def tr_header_date(repo):
+    """_header_to_bytes: a DateTime goes to UTC (astimezone if aware, replace(tzinfo=utc) if naive) and is written
+    with the IMF-fixdate format from the _weekday/_month tables; anything else is to_unicode"""
+    import warnings
+    with warnings.catch_warnings():
+        warnings.simplefilter('ignore')      # invalid escape sequences in the parsed source
+        mod = ast.parse(open(os.path.join(repo, 'spyne/protocol/http.py')).read())
+    tabs = {}
+    for n in mod.body:
+        if isinstance(n, ast.Assign) and len(n.targets) == 1 and isinstance(n.targets[0], ast.Name) \
+                and n.targets[0].id in ('_weekday', '_month'):
+            need(isinstance(n.value, ast.List) and all(isinstance(e, ast.Constant) and isinstance(e.value, str) for e in n.value.elts),
+                 '%s is a list of string literals' % n.targets[0].id)
+            tabs[n.targets[0].id] = [e.value for e in n.value.elts]
+    need(set(tabs) == {'_weekday', '_month'}, '_weekday and _month tables')
+    fn = find_def(mod.body, '_header_to_bytes')
+    need([a.arg for a in fn.args.args] == ['prot', 'val', 'cls'], '_header_to_bytes arguments')
+    body = strip_doc(fn.body)
+    need(len(body) == 1 and isinstance(body[0], ast.If), '_header_to_bytes: one if statement')
+    test = ast.unparse(body[0].test)
+    if test == 'issubclass(cls, DateTime)':
+        date_plain = False          # a Date member (datetime.date values) takes the DateTime path too
+    elif test == 'issubclass(cls, DateTime) and (not issubclass(cls, Date))':
+        date_plain = True
+    else:
+        raise TranslateError('_header_to_bytes: test not recognised: %s' % test)
+    dt, other = body[0].body, body[0].orelse
+    need(len(dt) == 2 and isinstance(dt[0], ast.If) and isinstance(dt[1], ast.Return), '_header_to_bytes: DateTime branch of two statements')
+    t = dt[0].test
+    need(isinstance(t, ast.Compare) and isinstance(t.ops[0], ast.IsNot) and isinstance(t.left, ast.Attribute)
+         and t.left.attr == 'tzinfo' and getattr(t.left.value, 'id', None) == 'val'
+         and isinstance(t.comparators[0], ast.Constant) and t.comparators[0].value is None, 'val.tzinfo is not None')
+
+    def utc(n):
+        return isinstance(n, ast.Attribute) and n.attr == 'utc' and getattr(n.value, 'id', None) == 'pytz'
+
+    def assign_val_call(st, meth):
+        return isinstance(st, ast.Assign) and getattr(st.targets[0], 'id', None) == 'val' and isinstance(st.value, ast.Call) \
+            and isinstance(st.value.func, ast.Attribute) and st.value.func.attr == meth \
+            and getattr(st.value.func.value, 'id', None) == 'val'
+    need(len(dt[0].body) == 1 and assign_val_call(dt[0].body[0], 'astimezone') and len(dt[0].body[0].value.args) == 1
+         and utc(dt[0].body[0].value.args[0]), 'aware value: val = val.astimezone(pytz.utc)')
+    e = dt[0].orelse
+    need(len(e) == 1 and assign_val_call(e[0], 'replace') and not e[0].value.args and len(e[0].value.keywords) == 1
+         and e[0].value.keywords[0].arg == 'tzinfo' and utc(e[0].value.keywords[0].value), 'naive value: val = val.replace(tzinfo=pytz.utc)')
+    r = dt[1].value
+    need(isinstance(r, ast.BinOp) and isinstance(r.op, ast.Mod) and isinstance(r.left, ast.Constant) and isinstance(r.left.value, str)
+         and isinstance(r.right, ast.Tuple), 'return "<format>" % (...)')
+    args = [ast.unparse(a) for a in r.right.elts]
+    need(args == ['_weekday[val.weekday()]', 'val.day', '_month[val.month]', 'val.year', 'val.hour', 'val.minute', 'val.second'],
+         'IMF-fixdate arguments: %s' % args)
+    need(len(other) == 1 and isinstance(other[0], ast.Return) and ast.unparse(other[0].value) == 'prot.to_unicode(cls, val)',
+         'other header members: prot.to_unicode(cls, val)')
+    return r.left.value, tabs['_weekday'], tabs['_month'], date_plain
+
+
 def tr_empty_in(fn):
     out = []
     for n in ast.walk(fn):
@@ -318,6 +414,8 @@ def generate(repo):
     need(isinstance(defaults['strict_arrays'], ast.Constant) and defaults['strict_arrays'].value in (True, False), 'strict_arrays default')
     seps, eq, plus = tr_parse_qs(repo)
     per_branch = tr_sti(repo)
+    keeps_list = tr_idxmap(sdo)
+    hfmt, wk, mon, date_plain = tr_header_date(repo)
     b = lambda x: 'true' if x else 'false'
     out = '''(** GENERATED by harness/translate/flatkeys.py from spyne/protocol/dictdoc/simple.py,
     spyne/model/complex.py and spyne/server/wsgi.py -- do not edit. *)
@@ -336,8 +434,15 @@ Definition src_sti_per_branch : bool := %s.
 Definition src_qs_separators : list Z := %s.
 Definition src_qs_equals : Z := %d.
 Definition src_qs_plus : Z * Z := (%d, %d).
+Definition src_idxmap_keeps_list : bool := %s.
+Definition src_date_header_plain : bool := %s.
+Definition src_header_date_format : text := %s.
+Definition src_weekday : list text := %s.
+Definition src_month : list text := %s.
 
 %s''' % (gtext(pattern), b(natural), rej, app, gtext(empty_in), gtext(empty_out), gtext(fmt),
          gtext(defaults['hier_delim'].value), b(defaults['strict_arrays'].value), b(per_branch),
-         '[' + '; '.join(str(s) for s in seps) + ']', eq, plus[0], plus[1], tr_s2cmi(find_def(mod.body, '_s2cmi')))
+         '[' + '; '.join(str(s) for s in seps) + ']', eq, plus[0], plus[1], b(keeps_list), b(date_plain), gtext(hfmt),
+         '[' + '; '.join(gtext(x) for x in wk) + ']', '[' + '; '.join(gtext(x) for x in mon) + ']',
+         tr_s2cmi(find_def(mod.body, '_s2cmi')))
     return {'FlatKeys.v': out}
